@@ -226,6 +226,27 @@ CLAIMED = {
         design='DESIGN.md 4/C19'),
 }
 
+CLAIMED['C06'] = dict(
+    category='other',
+    text=('Reduced scope: total in the literal VALUES of each statement '
+          'form, not in the source texts.  Each of ~100 statement-form '
+          'templates (assignment with every operator, CONST, DIM static / '
+          'SHARED / STATIC / in SUB / records, FOR, IF, SELECT, DO, device '
+          'statements, builtins, procedure calls) is parsed natively; its '
+          'sentinel literals get SYMBOLIC values over the full range of '
+          'INTEGER / LONG literals and the real Compiler.compile (three '
+          'passes, folder, code generator, peephole optimiser) + '
+          '__bytes__ + __str__ run symbolically: every path ends in a '
+          'module that assembles and lists, or in a SyntaxError / '
+          'CompileError with a position inside the text.'),
+    note=('Source text is concrete (pyparsing cannot be executed '
+          'symbolically), so grammar-level totality (token mutations, '
+          'stray keywords) is NOT decided; literal values 0,1,2 and the '
+          'bitwise-operator templates are native enumerations; the debug '
+          'section serialiser (pickle/gzip, C code) is stubbed in symbolic '
+          'runs and exercised natively.'),
+    design='DESIGN.md 4/C06')
+
 NOT_APPLICABLE = {
     'C14': ('respelling invariance quantifies over source texts; the only '
             'code that distinguishes spellings is the pyparsing grammar, '
@@ -238,8 +259,14 @@ NOT_APPLICABLE = {
             'construction, so there is no variable to make symbolic'),
 }
 
-PENDING_REASON = ('check not built yet in this round (planned, see '
-                  'DESIGN.md section 4); not claimed until it runs')
+PENDING_REASON = ('not claimed: what a solver can decide here (value-'
+                  'triggered static rules: DIM bounds, CONST values, frame '
+                  'sizes with symbolic literals) is covered under C06 with '
+                  'the same machinery; the rule catalogue itself (type / '
+                  'arity / block-structure faults injected at sites of '
+                  'arbitrary texts) quantifies over source texts, which go '
+                  'through pyparsing and cannot be made symbolic - see '
+                  'DESIGN.md section 5')
 
 
 def main():
